@@ -8,7 +8,7 @@ set -u
 WT=$(readlink -f "$1"); ID=$2; TIER=${3:-quick}
 SFX=${TRY_SUFFIX:-}; H=/tmp/h2$SFX
 mkdir -p $H
-rsync -a --delete --exclude target /verif/harness/ $H/
+rsync -a --delete --exclude target ${HARNESS_SRC:-/verif/harness}/ $H/
 sed -i "s|/repo/weechess-core|$WT/weechess-core|; s|/repo/weechess-engine|$WT/weechess-engine|" $H/Cargo.toml
 sed -i "s|/verif/.target/harness|/tmp/h2$SFX-target|" $H/.cargo/config.toml
 (cd $H && cargo build --release 2>&1 | grep -E "^error" -A8 | head -30)
